@@ -16,7 +16,7 @@ object that existed before the step, and the bytes of its extent, are unchanged.
 from . import model as M, typegen
 from .core import exc_sig, quarantined
 
-KINDS = ["index_oob", "index_oob", "array_shape", "array_shape", "array_dims", "scalar_sequence", "array_nested_deeper", "misfit_at_offset", "string_long", "string_long", "items_large", "items_large", "struct_partial", "union_nonmember", "union_nonmember", "ctx_mismatch", "offset_nobuf"]
+KINDS = ["index_oob", "index_oob", "array_shape", "array_shape", "array_dims", "scalar_sequence", "array_nested_deeper", "misfit_at_offset", "string_long", "string_long", "items_large", "items_large", "struct_partial", "union_nonmember", "union_nonmember", "ctx_mismatch", "offset_nobuf", "negative_size"]
 
 
 def gen(gs, w):
@@ -324,6 +324,24 @@ def gen_misfit_at_offset(gs, w):
     return {"type": t, "value": v, "region": rng.choice(live_regions), "bad_field": fname}
 
 
+def gen_negative_size(gs, w):
+    """Dimensions / a string capacity below zero: less room than the header that would be written."""
+    from .objsim import pick_buf
+
+    rng = gs.rng
+    cands = [t for t, ty in enumerate(w.schema) if ty["k"] == "str" or (ty["k"] == "array" and any(d is None for d in ty["shape"]) and not typegen.is_dynamic(w.schema, ty["item"]))]
+    if not cands:
+        return None
+    t = rng.choice(cands)
+    ty = w.schema[t]
+    if ty["k"] == "str":
+        return {"type": t, "dims": [-rng.choice([1, 2, 3, 8, 9])], "buf": pick_buf(w, rng)}
+    nd = sum(1 for d in ty["shape"] if d is None)
+    dims = [rng.choice([1, 2, 3]) for _ in range(nd)]
+    dims[rng.randrange(nd)] = -rng.choice([1, 1, 2, 3])
+    return {"type": t, "dims": dims, "buf": pick_buf(w, rng), "np": rng.random() < 0.3}
+
+
 def gen_offset_nobuf(gs, w):
     rng = gs.rng
     tops = [t for t in gs.top_types(w) if w.schema[t]["k"] != "str"]
@@ -372,6 +390,15 @@ def run(step):
             step.after_misuse = lambda: (buf.get_free(), buf.capacity) == free_before or step.viol("C11", "refused_operation_changed_allocator_state", [kind], f"free bytes / capacity {free_before} -> {(buf.get_free(), buf.capacity)} after a refused construction at an explicit offset {roff} (the region is in use)")
             # the region is the harness's own: bytes inside it may be written before the refusal
             step.allowed.append((buf, roff, roff + rsize))
+        elif kind == "negative_size":
+            t = op["type"]
+            if t >= len(w.schema) or op["buf"] >= len(w.bufs):
+                raise Skip()
+            cls = w.classes[t]
+            buf = w.bufs[op["buf"]]
+            dims = [np.int64(d) for d in op["dims"]] if op.get("np") else list(op["dims"])
+            feat = typegen.features(w.schema, t)
+            call = lambda: cls(*dims, _buffer=buf)
         elif kind in ("ctx_mismatch", "offset_nobuf"):
             t = op["type"]
             if t >= len(w.schema):
